@@ -360,7 +360,7 @@ class Ctx:
         tag, fn, pk, rk, pnames, recursive = self.specfuncs[name]
         if len(args) != len(pk):
             raise Unsupported(f"arity of spec function {name}")
-        args = [coerce(a, k) for a, k in zip(args, pk)]
+        args = [coerce(a.inner if (isinstance(a, VOpt) and not k.startswith("opt[")) else a, k) for a, k in zip(args, pk)]
         if tag == "uf":
             f, low = fn
             if self._defining == name:
